@@ -284,8 +284,31 @@ static void genCommon(Rng& r, KV& kv, bool faults) {
   kv.setu("mp", 1500000);
   kv.setu("fp", 600000);
 }
+static void genFocus(Rng& r, KV& kv, bool always) {
+  // focus class: an unlimited stage feeding a limited one, few items - the hand-off between a
+  // stage's completion callback and a concurrent schedule() of the last item
+  if (always || r.chance(1, 3)) {
+    long nst = r.range(3, 4);
+    kv.set("nst", nst);
+    kv.set("form", 0L);
+    kv.set("n", r.range(2, 3));
+    kv.set("items", r.range(1, 4));
+    kv.set("lim0", r.pick<long>({1, 1, 2}));
+    for (long s = 1; s < nst - 1; ++s)
+      kv.set("lim" + std::to_string(s), r.chance(2, 3) ? 9223372036854775807L : 1L);
+    kv.set("lim" + std::to_string(nst - 1), r.pick<long>({1, 1, 2}));
+    for (long s = 0; s < nst; ++s)
+      kv.set("fm" + std::to_string(s), 0L);
+    kv.set("burn", r.range(0, 6));
+  }
+}
 static void genC27(Rng& r, KV& kv, const Opts&) {
   genCommon(r, kv, false);
+  genFocus(r, kv, false);
+}
+static void genC27h(Rng& r, KV& kv, const Opts&) {
+  genCommon(r, kv, false);
+  genFocus(r, kv, true);
 }
 // C28: shapes in which limits bind: several pool threads, more items than the limit, longer bodies
 static void genC28(Rng& r, KV& kv, const Opts&) {
@@ -439,7 +462,8 @@ static void runC29(Case& c) {
 }
 
 static const vf::Prop kProps[] = {
-    {"C27", "pipe", genC27, runC27, vf::kE1, 2500, 80000, "at least two items were in flight in different stages at the same time"},
+    {"C27", "pipe", genC27, runC27, vf::kE1, 4000, 120000, "at least two items were in flight in different stages at the same time"},
+    {"C27", "handoff", genC27h, runC27, vf::kE1, 8000, 200000, "at least two items were in flight in different stages at the same time"},
     {"C28", "pipe", genC28, runC28, vf::kE1, 2500, 80000, "items were in flight in two stages at once and some stage with limit >= 2 reached its limit"},
     {"C29", "fault", genC29, runC29, vf::kE1, 2500, 60000, "a stage threw while items were in flight in at least two stages"},
 };
